@@ -23,6 +23,13 @@ type GraphSpec struct {
 	DecParams [][2]int `json:"dec_params,omitempty"` // decorator d -> %param j%
 	ParamRefs [][2]int `json:"param_refs,omitempty"` // param i -> %param j%
 	Scopes    []string `json:"scopes,omitempty"`     // per service: "", shared, contextual, non_shared
+	// Place: how the references of one service are laid out. 0: one call per call-argument reference; 1: all
+	// call-argument references of a service share one call and a literal follows them (constructor arguments likewise),
+	// so no reference is the last argument; 2: as 1 with the literal in front.
+	Place int `json:"place,omitempty"`
+	// Decoys adds look-alikes that are no dependencies: a parameter named like every service, referenced by every
+	// service, and on every service a tag named like the next service (names of different kinds live in different namespaces).
+	Decoys bool `json:"decoys,omitempty"`
 }
 
 func SvcName(i int) string   { return fmt.Sprintf("s%d", i) }
@@ -49,6 +56,11 @@ func (g GraphSpec) Config() cfg.Config {
 		}
 		c.Params = append(c.Params, cfg.Param{Name: ParamName(i), Val: cfg.Str(text)})
 	}
+	if g.Decoys {
+		for j := 0; j < g.NSvc; j++ {
+			c.Params = append(c.Params, cfg.Param{Name: SvcName(j), Val: cfg.Str(fmt.Sprintf("decoy%d", j))})
+		}
+	}
 	for i := 0; i < g.NSvc; i++ {
 		s := cfg.Service{Name: SvcName(i), Ctor: cfg.P("fx/lib.NewObj")}
 		place := func(kind int, text string) {
@@ -66,6 +78,10 @@ func (g GraphSpec) Config() cfg.Config {
 				}
 				s.Args = append(s.Args, cfg.Str(text))
 			case 2:
+				if g.Place != 0 && len(s.Calls) > 0 {
+					s.Calls[0].Args = append(s.Calls[0].Args, cfg.Str(text))
+					return
+				}
 				s.Calls = append(s.Calls, cfg.Call{Method: "Call1", Args: []cfg.Val{cfg.Str(text)}})
 			default:
 				s.Args = append(s.Args, cfg.Str(text))
@@ -89,6 +105,30 @@ func (g GraphSpec) Config() cfg.Config {
 		for _, e := range g.SvcTags {
 			if e[0] == i {
 				s.Tags = append(s.Tags, cfg.Tag{Name: TagName(e[1])})
+			}
+		}
+		if g.Decoys {
+			for j := 0; j < g.NSvc; j++ {
+				s.Args = append(s.Args, cfg.Str("%"+SvcName(j)+"%"))
+			}
+			if g.NSvc > 1 {
+				s.Tags = append(s.Tags, cfg.Tag{Name: SvcName((i + 1) % g.NSvc)})
+			}
+		}
+		switch g.Place {
+		case 1:
+			if len(s.Args) > 0 {
+				s.Args = append(s.Args, cfg.Str("tail"))
+			}
+			if len(s.Calls) > 0 {
+				s.Calls[0].Args = append(s.Calls[0].Args, cfg.Int(7))
+			}
+		case 2:
+			if len(s.Args) > 0 {
+				s.Args = append([]cfg.Val{cfg.Str("head")}, s.Args...)
+			}
+			if len(s.Calls) > 0 {
+				s.Calls[0].Args = append([]cfg.Val{cfg.Int(7)}, s.Calls[0].Args...)
 			}
 		}
 		if i < len(g.Scopes) && g.Scopes[i] != "" {
@@ -174,6 +214,8 @@ func RandomGraph(t *rapid.T, maxSvc, maxTag, maxDec, maxParam int, scopes bool) 
 			g.Scopes = append(g.Scopes, rapid.SampledFrom([]string{"", "", "shared", "contextual", "non_shared"}).Draw(t, "scope"))
 		}
 	}
+	g.Place = rapid.IntRange(0, 2).Draw(t, "place")
+	g.Decoys = rapid.Bool().Draw(t, "decoys")
 	return g
 }
 
